@@ -13,7 +13,7 @@ want=set(sys.argv[1:])
 from concurrent.futures import ThreadPoolExecutor
 import threading
 todo=[m for m in idx if not want or m['property'] in want]
-NW=min(3,len(todo)) or 1
+NW=min(5,len(todo)) or 1
 wts=[]
 for k in range(NW):
     w=tempfile.mkdtemp(prefix='govc-selftest-'); os.rmdir(w)
